@@ -41,7 +41,7 @@ func shortName(fn *types.Func) string {
 		}
 		name := "?"
 		if nt, ok := t.(*types.Named); ok {
-			name = nt.Obj().Name()
+			name = objName(nt.Obj())
 		}
 		return fmt.Sprintf("%s.(%s%s).%s", pkg, ptr, name, refName(fn))
 	}
@@ -188,7 +188,7 @@ func qname(fn *types.Func) string {
 			if nt.Obj().Pkg() != nil {
 				p = nt.Obj().Pkg().Path()
 			}
-			return p + "." + nt.Obj().Name() + "." + fn.Name()
+			return p + "." + objName(nt.Obj()) + "." + fn.Name()
 		}
 		return pkg + ".?." + fn.Name()
 	}
@@ -286,7 +286,7 @@ func isField(info *types.Info, e ast.Expr, typ, name string) bool {
 		t = pt.Elem()
 	}
 	if nt, ok := t.(*types.Named); ok {
-		return nt.Obj().Name() == typ
+		return objName(nt.Obj()) == typ
 	}
 	return false
 }
@@ -306,7 +306,7 @@ func namedOf(t types.Type) *types.Named {
 
 func typeIs(t types.Type, pkgPath, name string) bool {
 	nt := namedOf(t)
-	if nt == nil || nt.Obj().Name() != name {
+	if nt == nil || objName(nt.Obj()) != name {
 		return false
 	}
 	if strings.HasPrefix(pkgPath, "~/") {
